@@ -56,7 +56,7 @@ def run(prog, rep):
                      "matched with an error-returning Err arm, or is a listed intentional absorption")
     files = ("src/execution/strict.rs", "src/execution.rs", "src/graph.rs", "src/variables.rs", "src/functions.rs", "src/execution/lazy.rs",
              "src/execution/lazy/statements.rs", "src/execution/lazy/store.rs", "src/execution/lazy/values.rs", "src/execution/error.rs")
-    fns = [f for f in prog.fns.values() if f.file in files]
+    fns = [f for f in prog.shape_fns() if f.file in files]
     n2, kinds = e2.run_e2d(prog, rep, fns, e2.ABSORB)
     rep.floor("E2.d", n2, 280, "fallible call sites")
     rep.extra["consumption_kinds"] = kinds
